@@ -1,6 +1,6 @@
 package dragonboat
 
-//vcheck:bounds C11 pool: the real snapshot workerPool (engine.go: workerPoolMain, loadNodes/unloadNodes, schedule, completed, start/setBusy/setIdle, get*Job) with 2 workers and 1-2 shards driven as an event loop: reflect.Select is replaced by a choice (symbolic variable) among the ready channels; before every select the environment takes 0..2 steps out of: a node requests save / recover / stream (node-level protocol: one outstanding request per kind and shard), a worker goroutine picks up the job the pool handed to it, a worker finishes its job and signals completion, NodeHost asks the pool to stop; at most 6 environment steps and 12 pool iterations per run; other engine components hold 0 or 1 further load references on each node
+//vcheck:bounds C11 pool: the real snapshot workerPool (engine.go: workerPoolMain, loadNodes/unloadNodes, schedule, completed, start/setBusy/setIdle, get*Job) with 2 workers and 1-2 shards driven as an event loop: reflect.Select is replaced by a choice (symbolic variable) among the ready channels; before every select the environment takes 0..1 steps out of: a node requests save / recover / stream (node-level protocol: one outstanding request per kind and shard), (a worker picks up the job the pool handed to it right away,) a worker finishes its job and signals completion, NodeHost asks the pool to stop; at most 5 (thorough: 6) environment steps, at most one per pool iteration, and 6 pool iterations before the stop is forced; other engine components hold 0 or 1 further load references on each node
 //vcheck:stub C11 pool: worker goroutines = harness model (a job is "inside the user state machine" from pick-up to completion; the real node.save/recover/stream bodies are decided by the C08/C11/C16 node and rsm harnesses); syncutil.Stopper.Stop of the worker stopper = every worker finishes its current job and returns, then the channel closes (what Stop waits for); time.Ticker never fires; managed state machine = load counter (Loaded/Offloaded as rsm.OffloadedStatus); pipeline.setCloseReady = recorder (from that moment the close worker may call Close on the user state machine)
 
 import (
@@ -125,43 +125,74 @@ func (e *vPoolEnv) finish(w int) bool {
 }
 
 func (e *vPoolEnv) step() {
-	switch vChoose("envstep", 6) {
+	// workers receive what the pool handed to them right away (a later pick-up
+	// only shortens the time a job spends inside the state machine)
+	for w := range e.p.workers {
+		e.pickUp(w)
+	}
+	// enabled actions
+	type act struct {
+		kind, arg int
+	}
+	var acts []act
+	if !e.stopped {
+		for i, n := range e.nodes {
+			if !e.saveOut[n.shardID] {
+				acts = append(acts, act{0, i})
+			}
+			if !e.recoverOut[n.shardID] {
+				acts = append(acts, act{1, i})
+			}
+			if !n.ss.streamReady.hasTask {
+				acts = append(acts, act{2, i})
+			}
+		}
+		acts = append(acts, act{5, 0})
+	}
+	for w := range e.active {
+		if e.active[w] != nil {
+			acts = append(acts, act{4, w})
+		}
+	}
+	if len(acts) == 0 {
+		return
+	}
+	a := acts[vChoose("envstep", len(acts))]
+	switch a.kind {
 	case 0: // a node asks for a snapshot to be saved
-		n := e.nodes[vChoose("shard", len(e.nodes))]
-		if !e.saveOut[n.shardID] && !e.stopped {
-			e.saveOut[n.shardID] = true
-			n.ss.setSaveReq(rsm.Task{Save: true})
-			e.p.saveReady.shardReady(n.shardID)
-		}
+		n := e.nodes[a.arg]
+		e.saveOut[n.shardID] = true
+		n.ss.setSaveReq(rsm.Task{Save: true})
+		e.p.saveReady.shardReady(n.shardID)
 	case 1:
-		n := e.nodes[vChoose("shard", len(e.nodes))]
-		if !e.recoverOut[n.shardID] && !e.stopped {
-			e.recoverOut[n.shardID] = true
-			n.ss.setRecoverReq(rsm.Task{Recover: true})
-			e.p.recoverReady.shardReady(n.shardID)
-		}
+		n := e.nodes[a.arg]
+		e.recoverOut[n.shardID] = true
+		n.ss.setRecoverReq(rsm.Task{Recover: true})
+		e.p.recoverReady.shardReady(n.shardID)
 	case 2:
-		n := e.nodes[vChoose("shard", len(e.nodes))]
-		if !n.ss.streamReady.hasTask && !e.stopped {
-			n.ss.setStreamReq(rsm.Task{Stream: true}, nil)
-			e.p.streamReady.shardReady(n.shardID)
-		}
-	case 3:
-		e.pickUp(vChoose("worker", len(e.p.workers)))
+		n := e.nodes[a.arg]
+		n.ss.setStreamReq(rsm.Task{Stream: true}, nil)
+		e.p.streamReady.shardReady(n.shardID)
 	case 4:
-		if e.finish(vChoose("worker", len(e.p.workers))) {
+		if e.finish(a.arg) {
 			vReach("job-finished")
 		}
 	case 5:
-		if !e.stopped {
-			e.stopped = true
-			e.p.poolStopper.Close()
-			vReach("stop-requested")
-		}
+		e.stopped = true
+		e.p.poolStopper.Close()
+		vReach("stop-requested")
 	}
 }
 
 var vSSPool *vPoolEnv
+
+func vMaxEnvSteps() int {
+	if vTier() > 0 {
+		return 6
+	}
+	return 5
+}
+
 
 // vStopperStop stands in for syncutil.Stopper.Stop: it returns only after the
 // goroutines started through the stopper have returned.  For the pool's worker
@@ -184,7 +215,7 @@ func vStopperStop(s *syncutil.Stopper) {
 // replica's state machine at the same time, and the shutdown order - a node
 // only becomes closable (last load reference dropped => close worker may call
 // Close) when no snapshot job is inside its state machine and none can start.
-//vcheck: reach=job-picked-up,job-finished,stop-requested,stop-waits-for-a-running-job,stopped-with-work,done workers=16 replay=symbolic forbid=. steps=2000000 tier=dev
+//vcheck: reach=job-picked-up,job-finished,stop-requested,stop-waits-for-a-running-job,stopped-with-work,done workers=16 replay=symbolic forbid=. steps=2000000
 func VHarness_C11_SnapshotPool() {
 	nShards := 1 + vChoose("shards", 2)
 	env := &vPoolEnv{closeReady: map[uint64]bool{}, saveOut: map[uint64]bool{}, recoverOut: map[uint64]bool{}}
@@ -230,7 +261,7 @@ func VHarness_C11_SnapshotPool() {
 	vSSPool = env
 	vSelectHook = func() {
 		env.selects++
-		if env.selects > 12 {
+		if env.selects > 6 {
 			// bound on the length of the run: NodeHost stops the pool
 			if !env.stopped {
 				env.stopped = true
@@ -238,10 +269,12 @@ func VHarness_C11_SnapshotPool() {
 			}
 			return
 		}
-		k := vChoose("envsteps", 3)
-		for i := 0; i < k && env.steps < 6; i++ {
+		if env.steps < vMaxEnvSteps() && vBool("envstep?") {
 			env.steps++
 			env.step()
+		}
+		for w := range p.workers {
+			env.pickUp(w)
 		}
 		// the pool must not block for ever: if nothing is ready, the next thing that happens is the stop
 		ready := env.stopped
